@@ -57,11 +57,15 @@ class VT:
 
 class Scheduler:
   def __init__(self, schedule=(), trace_files=(), opcodes=False, step_limit=1500000, quantum=23,
-               record=False, timed=None):
+               record=False, timed=None, raw_threads=False):
     self.schedule = [tuple(x) for x in schedule]
     self.timed = dict((float(k), [tuple(x) for x in v]) for k, v in (timed or {}).items())
     self.sched_pos = 0
     self.trace_files = set(trace_files)
+    # raw_threads: the OS threads that carry the virtual threads are started with
+    # _thread.start_new_thread, as a C library or an embedding application would - the threading
+    # module does not know them (threading.active_count() does not count them)
+    self.raw_threads = raw_threads
     self.opcodes = opcodes
     self.step_limit = step_limit
     self.quantum = quantum
@@ -383,6 +387,14 @@ def sched():
 
 
 # ====================================================================== primitives
+class RawCarrier:
+  """What the scheduler keeps about an OS thread that was not made by the threading module."""
+
+  def __init__(self, name):
+    self.name = name
+    self.ident = None
+
+
 class VThread:
   _count = 0
 
@@ -451,9 +463,14 @@ class VThread:
       finally:
         sys.settrace(None)
         s.finish_current(vt)
-    # the OS thread carries the virtual thread's name, so threading.current_thread().name agrees
-    vt.real = _threading.Thread(target=boot, daemon=True, name=self._name)
-    vt.real.start()
+    if s.raw_threads:
+      import _thread
+      vt.real = RawCarrier(self._name)
+      vt.real.ident = _thread.start_new_thread(boot, ())
+    else:
+      # the OS thread carries the virtual thread's name, so threading.current_thread().name agrees
+      vt.real = _threading.Thread(target=boot, daemon=True, name=self._name)
+      vt.real.start()
     vt.started = True
     s.point()
 
